@@ -40,6 +40,7 @@ type backend struct {
 	lastNew     int         // id of the handle created last
 	fullReads   bool        // ReadAt always fills the buffer (C13 boundary runs)
 	manyDirents int         // Readdir returns about this many entries (C13 boundary runs)
+	direntsByH  bool        // Readdir names every entry after the handle it was asked on (content checks under concurrency)
 
 	calls  []string // indexed call tokens of the current request
 	multis []string // unindexed tokens (Close, Renamed) of the current request
@@ -812,6 +813,9 @@ func (f *sfile) Readdir(offset uint64, count uint32) (p9.Dirents, error) {
 	}
 	for i := nd; i > 0; i-- {
 		d := p9.Dirent{QID: b.randQID(), Offset: b.r.bits(64), Type: p9.QIDType(b.r.bits(8)), Name: string(b.r.bytesN(1 + b.r.intn(30)))}
+		if b.direntsByH {
+			d.Name = fmt.Sprintf("h%d-%04d-padpadpadpad", f.id, i)
+		}
 		ents = append(ents, d)
 		rows = append(rows, []string{fmt.Sprint(uint8(d.QID.Type)), fmt.Sprint(d.QID.Version), fmt.Sprint(d.QID.Path), fmt.Sprint(d.Offset), fmt.Sprint(uint8(d.Type)), hx([]byte(d.Name))})
 	}
